@@ -18,6 +18,7 @@ import (
 	"strconv"
 	"strings"
 
+	"github.com/LemoFoundationLtd/lemochain-core/chain/account"
 	"github.com/LemoFoundationLtd/lemochain-core/chain/types"
 	"github.com/LemoFoundationLtd/lemochain-core/common"
 	"github.com/LemoFoundationLtd/lemochain-core/store"
@@ -63,6 +64,7 @@ type c09Case struct {
 	committed map[int]bool
 	stable    int
 	oracle    bool
+	noShape   bool // set after a multi-account Manager.Save: the junk `data` field of NON-terminal split nodes depends on the (unknown, map-iteration) order of its Puts
 	log       []string
 	failed    map[string]bool
 }
@@ -318,6 +320,9 @@ func (k *c09Case) exec(op string) string {
 	w := strings.Fields(op)
 	out := "bad-op"
 	atoi := func(s string) int { n, _ := strconv.Atoi(s); return n }
+	if k.noShape && len(w) == 1 && w[0] == "shape" {
+		return "skipped"
+	}
 	k.log = append(k.log, op)
 	switch {
 	case len(w) == 1 && w[0] == "open":
@@ -350,7 +355,9 @@ func (k *c09Case) exec(op string) string {
 				p = atoi(w[2])
 				ph = k.hashOf(p)
 			}
-			hd := &types.Header{Height: h, ParentHash: ph, VersionRoot: common.BigToHash(big.NewInt(int64(7000 + l)))}
+			// TxRoot only makes the hashes of equal-height siblings differ; VersionRoot stays empty so that
+			// account.Manager can open the (empty) version trie of a base block
+			hd := &types.Header{Height: h, ParentHash: ph, TxRoot: common.BigToHash(big.NewInt(int64(7000 + l)))}
 			b := &types.Block{}
 			b.SetHeader(hd)
 			k.blocks[l] = b
@@ -381,8 +388,12 @@ func (k *c09Case) exec(op string) string {
 				if err != nil {
 					return "err"
 				}
-				adb.Put(&types.AccountData{Address: k.keys[ki], Balance: big.NewInt(v),
-					NewestRecords: map[types.ChangeLogType]types.VersionRecord{}}, k.height[l])
+				acct := &types.AccountData{Address: k.keys[ki], Balance: big.NewInt(v),
+					NewestRecords: map[types.ChangeLogType]types.VersionRecord{}}
+				adb.Put(acct, k.height[l])
+				// the caller keeps working on its object (Manager does): the trie must hold a copy
+				acct.Balance.SetInt64(-4242)
+				acct.NewestRecords[types.ChangeLogType(1)] = types.VersionRecord{Version: 99, Height: 99}
 				return "ok"
 			})
 			if out == "ok" && k.live[l] {
@@ -410,7 +421,16 @@ func (k *c09Case) exec(op string) string {
 				if err != nil {
 					return "err"
 				}
-				return balStr(adb.Get(k.keys[ki]))
+				a, gerr := adb.Get(k.keys[ki])
+				res := balStr(a, gerr)
+				if gerr == nil && a != nil && a.Balance != nil {
+					// the caller mutates what Get handed out (Manager does): must not reach the trie (Copy())
+					a.Balance.SetInt64(-777)
+					if a.NewestRecords != nil {
+						a.NewestRecords[types.ChangeLogType(1)] = types.VersionRecord{Version: 77, Height: 77}
+					}
+				}
+				return res
 			})
 			if out == "panic" {
 				class = "panic"
@@ -431,6 +451,19 @@ func (k *c09Case) exec(op string) string {
 	case len(w) == 2 && w[0] == "stable":
 		l := atoi(w[1])
 		var dropped []int
+		// handles obtained before the stabilisation (account.Manager keeps am.acctDb across SetStableBlock)
+		handles := map[int]*store.AccountTrieDB{}
+		for _, hl := range k.labels {
+			if k.live[hl] {
+				hl := hl
+				Safe(func() string {
+					if adb, err := k.db.GetActDatabase(k.hashOf(hl)); err == nil {
+						handles[hl] = adb
+					}
+					return ""
+				})
+			}
+		}
 		out = Safe(func() string {
 			blocks, err := k.db.SetStableBlock(k.hashOf(l))
 			if err != nil {
@@ -456,6 +489,7 @@ func (k *c09Case) exec(op string) string {
 				k.c.Count("stable:pruned-forks")
 			}
 			k.afterStable(l, dropped, op)
+			k.checkStaleHandles(handles, op)
 		}
 	case len(w) == 3 && w[0] == "anc":
 		h, leaf := uint32(atoi(w[1])), atoi(w[2])
@@ -483,6 +517,84 @@ func (k *c09Case) exec(op string) string {
 		k.checkViews(op)
 	}
 	return out
+}
+
+// record logs an op line whose effect on the real store was produced through ANOTHER entry point
+// (account.Manager.GetAccount / Manager.Save) together with the answer the direct call would have given;
+// the Lean model executes the line as usual.  Spec bookkeeping as in exec.
+func (k *c09Case) record(op, out string) {
+	w := strings.Fields(op)
+	atoi := func(s string) int { n, _ := strconv.Atoi(s); return n }
+	k.log = append(k.log, op)
+	if w[0] == "put" && out == "ok" {
+		l, ki, v := atoi(w[1]), atoi(w[2]), int64(atoi(w[3]))
+		if k.live[l] {
+			if _, dup := k.writes[l][ki]; !dup {
+				k.writes[l][ki] = v
+			}
+		}
+	}
+	k.c.Op(op, out)
+}
+
+// saveViaManager writes the write set `ws` of the (already accepted, still empty) block l with parent p the way the
+// chain does: account.NewManager(parent) → GetAccount (a read through the PARENT's view, caching in place) →
+// SetBalance → Finalise → Save(l), which Puts every dirty account with dye CurrentBlockHeight().  The equivalent
+// op lines for the model are `get p k` per account and then `put l k v` per account (Save iterates a Go map: the
+// order of its Puts is unknown, the lines are emitted in key order — the reachable trie does not depend on it).
+func (k *c09Case) saveViaManager(l, p int, ws []int, val func(l, ki int) int) bool {
+	ok := true
+	res := func() (r string) {
+		defer func() {
+			if e := recover(); e != nil {
+				r = fmt.Sprintf("panic: %v", e)
+			}
+		}()
+		am := account.NewManager(k.hashOf(p), k.db)
+		for _, ki := range ws {
+			want := k.peek(p, ki)
+			acc := am.GetAccount(k.keys[ki])
+			k.record(fmt.Sprintf("get %d %d", p, ki), want)
+			if k.oracle {
+				spec := "none"
+				if v, ok := k.specView(p, ki); ok {
+					spec = strconv.FormatInt(v, 10)
+				}
+				got := "none"
+				if want != "none" {
+					got = acc.GetBalance().String()
+				}
+				if got != spec {
+					k.fail("c09/view-mismatch/manager-get", fmt.Sprintf("Manager(base %d).GetAccount(key %d) has balance %s, specification says %s", p, ki, got, spec))
+				}
+			}
+			k.exec("dump")
+			acc.SetBalance(big.NewInt(int64(val(l, ki))))
+		}
+		if err := am.Finalise(); err != nil {
+			return "finalise:" + err.Error()
+		}
+		if err := am.Save(k.hashOf(l)); err != nil {
+			return "save:" + err.Error()
+		}
+		return "ok"
+	}()
+	if res != "ok" {
+		k.fail("c09/manager-save", fmt.Sprintf("Manager.Save for block %d (parent %d) failed: %s", l, p, res))
+		ok = false
+	}
+	if len(ws) > 1 {
+		k.noShape = true
+	}
+	sorted := append([]int(nil), ws...)
+	sort.Ints(sorted)
+	for _, ki := range sorted {
+		k.record(fmt.Sprintf("put %d %d %d", l, ki, val(l, ki)), "ok")
+	}
+	k.exec("dump")
+	k.exec("shape")
+	k.checkViews(fmt.Sprintf("Manager.Save(block %d)", l))
+	return ok
 }
 
 // spec bookkeeping + pruning/persistence oracle after a successful SetStableBlock(l)
@@ -556,6 +668,39 @@ func (k *c09Case) afterStable(l int, dropped []int, op string) {
 	}
 }
 
+// a handle fetched before SetStableBlock must keep answering like a freshly fetched one for every block that
+// is still viewable (a survivor, or the new stable block)
+func (k *c09Case) checkStaleHandles(handles map[int]*store.AccountTrieDB, op string) {
+	if k.db == nil {
+		return
+	}
+	for _, l := range k.viewable() {
+		old := handles[l]
+		if old == nil {
+			continue
+		}
+		for ki := range k.keys {
+			got := Safe(func() string {
+				d := old.GetTrie().Find(k.keys[ki].Hex())
+				if d == nil {
+					return balStr(k.db.GetAccount(k.keys[ki]))
+				}
+				a, ok := d.(*types.AccountData)
+				if !ok {
+					return "badtype"
+				}
+				return balStr(a, nil)
+			})
+			want := k.peek(l, ki)
+			if got != want {
+				k.fail("c09/stale-handle", fmt.Sprintf("after `%s` the AccountTrieDB handle of block %d fetched before the call reads %s for key %d, a fresh handle reads %s", op, l, got, ki, want))
+				return
+			}
+		}
+		k.c.Count("stale-handle:checked")
+	}
+}
+
 func sortedKeys(m map[int]bool) []int {
 	var out []int
 	for k := range m {
@@ -581,7 +726,7 @@ func c09RunScript(c *Ctx, text string, oracle bool) {
 }
 
 // c09Variant reports whether the split case of PatriciaTrie.put shares the children backing array of the
-// old child ("asis", the code in /repo today) or copies it ("fixed").
+// old child ("asis", the code before fix fb6e64c) or copies it ("fixed", the code in /repo).
 func c09Variant() string {
 	t := store.NewEmptyDatabase()
 	acct := func(v int64) *types.AccountData { return &types.AccountData{Balance: big.NewInt(v)} }
@@ -615,9 +760,15 @@ func c09(c *Ctx) {
 		c09RunScript(c, string(b), true)
 		return
 	}
-	// which put does the code under test contain?  (probe on a stand-alone 4-key trie, read-only shape dump)
-	c.Op("variant "+c09Variant(), "ok")
-	c.Count("variant:" + c09Variant())
+	// The model is PINNED to the repaired put (fix fb6e64c).  The probe is only an oracle: if the code under test
+	// shares the children backing array again, that is reported and the correspondence (model = repaired) breaks.
+	c.Op("variant fixed", "ok")
+	if v := c09Variant(); v != "fixed" {
+		c.Count("variant:" + v)
+		c.Fail("c09/put-split-aliases-child-array", "the split case of PatriciaTrie.put shares the old child's children backing array (probe on a 4-key trie: two nodes over one array)", map[string]interface{}{"probe": v})
+	} else {
+		c.Count("variant:fixed")
+	}
 	// regression corpus first (deterministic witnesses)
 	c09RunScript(c, c09Witness, true)
 	c.Count("corpus-script")
@@ -639,6 +790,9 @@ func c09(c *Ctx) {
 // become the children of one compressed edge (>= 3 children: the backing array has cap > len) and a
 // key of another group splits that edge.  Returns the keys (sorted) and the group of each key.
 func c09Keys(c *Ctx) ([]string, []int) {
+	if c.Rnd.Intn(4) == 0 {
+		return c09KeysDeep(c)
+	}
 	prefixes := []string{"3a", "3b", "4c", "4d", "3c"}
 	c.Rnd.Shuffle(len(prefixes), func(i, j int) { prefixes[i], prefixes[j] = prefixes[j], prefixes[i] })
 	ng := 2 + c.Rnd.Intn(3)
@@ -660,6 +814,58 @@ func c09Keys(c *Ctx) ([]string, []int) {
 		perm := c.Rnd.Perm(len(last))
 		for i := 0; i < m && len(all) < 14; i++ {
 			all = append(all, kg{lead + strings.Repeat("0", 36) + prefixes[g] + string(last[perm[i]]), g})
+		}
+	}
+	sort.Slice(all, func(i, j int) bool { return all[i].s < all[j].s })
+	var ks []string
+	var gs []int
+	for _, x := range all {
+		ks = append(ks, x.s)
+		gs = append(gs, x.g)
+	}
+	return ks, gs
+}
+
+// deep key universe: branching at two random inner nibbles (long compressed edges above, between and below:
+// `substring`, deep path cloning), leaves that differ in the last one or two nibbles, and one group with 9..16
+// members under one node (children arrays grow 1→2→4→8→16).
+func c09KeysDeep(c *Ctx) ([]string, []int) {
+	c.Count("keys:deep")
+	nib := "0123456789abcdef"
+	p1 := c.Rnd.Intn(19)      // 0..18
+	p2 := 20 + c.Rnd.Intn(18) // 20..37
+	type kg struct {
+		s string
+		g int
+	}
+	var all []kg
+	seen := map[string]bool{}
+	g := 0
+	nstem := 2 + c.Rnd.Intn(2)
+	v1s := c.Rnd.Perm(16)
+	for st := 0; st < nstem; st++ {
+		nsub := 1 + c.Rnd.Intn(3)
+		v2s := c.Rnd.Perm(16)
+		for sb := 0; sb < nsub; sb++ {
+			m := 1 + c.Rnd.Intn(4)
+			if g == 0 {
+				m = 9 + c.Rnd.Intn(8)
+			}
+			leaves := c.Rnd.Perm(16)
+			for i := 0; i < m && len(all) < 30; i++ {
+				b := []byte(strings.Repeat("0", 40))
+				b[p1] = nib[v1s[st]]
+				b[p2] = nib[v2s[sb]]
+				b[39] = nib[leaves[i%16]]
+				if g != 0 && c.Rnd.Intn(3) == 0 {
+					b[38] = nib[c.Rnd.Intn(16)]
+				}
+				if !seen[string(b)] {
+					seen[string(b)] = true
+					all = append(all, kg{string(b), g})
+				}
+			}
+			g++
 		}
 	}
 	sort.Slice(all, func(i, j int) bool { return all[i].s < all[j].s })
@@ -846,8 +1052,16 @@ func c09Random(c *Ctx, idx int) {
 				if nw > len(perm) {
 					nw = len(perm)
 				}
-				pending[l] = perm[:nw]
-				if nw == 0 {
+				if !wild && nw > 0 && c.Rnd.Intn(3) == 0 {
+					// the whole write set in one go, through account.Manager (dye = CurrentBlockHeight())
+					k.saveViaManager(l, p, perm[:nw], val)
+					c.Count("put:via-manager-save")
+					nw = 0
+					perm = nil
+				} else {
+					pending[l] = perm[:nw]
+				}
+				if nw == 0 && perm != nil {
 					c.Count("block:no-writes")
 				}
 			}
